@@ -39,7 +39,7 @@ ASSUMPTIONS = ["envelope: names unique within their first 32 characters; text wi
                "initial values on the raw grid inside the limits; float signals start at small dyadic values"]
 TRUSTED = ["Python re module; codecs", "harness normal form lib/dbcgen.py:norm (folds GenMsgCycleTime, GenSigCycleTime, GenSigStartValue, "
            "VFrameFormat, BusType, ProtocolType, System*LongSymbol)"]
-CORRESPONDENCE = "whole files (as written and damaged) read by dbc.load == CanVerif.Dbc.readFile; frame section lines and their reading == CanVerif.Dbc.writeFrames / readFrames / renderSg / parseSg / renderBo / parseBo / renderVal / parseVal"
+CORRESPONDENCE = "frame section + BO_TX_BU_ + frame and signal comments of the real file == CanVerif.Dbc.writeCore; whole files (as written and damaged) read by dbc.load == CanVerif.Dbc.readFile; frame section lines and their reading == CanVerif.Dbc.writeFrames / readFrames / renderSg / parseSg / renderBo / parseBo / renderVal / parseVal"
 NSHARDS = {"quick": 16, "thorough": 16}
 
 FLAVOURS = [None] * 17 + ["quote_semicolon", "env_long", "long_ecu_prefix"]
@@ -197,6 +197,8 @@ def cases_of(desc, rng=None):
     if r["exc"] or desc.get("flavour"):
         return
     yield {"op": "file", "c": {"m": desc, "blocks": r["blocks"]}}
+    # the core of the writer (frame section, BO_TX_BU_ lines, frame comments, signal comments) against Model/DbcFile.lean writeCore
+    yield {"op": "core", "c": {"m": desc, "frames": core_frames(r["db"], r["blocks"])}}
     # the file as a whole against the reader model of Model/DbcFile.lean: as written, and damaged (lines inserted, dropped, cut)
     for variant in range(3):
         yield {"op": "whole", "c": {"m": desc, "variant": variant, "vseed": (rng.randrange(1 << 30) if rng is not None else 1)}}
@@ -372,6 +374,39 @@ def observe_whole(c, r):
     return {"lines": o["lines"], "snap": o["snap"]}
 
 
+def core_frames(db, blocks):
+    """the frames as the core of the writer sees them: BO_ line, SG_ lines with the signals' comments, further senders, comment"""
+    out = []
+    objs = list(db.frames) + ([None] if db.signals else [])
+    for b, f in zip(blocks, objs):
+        sigs = list(f.signals) if f is not None else list(db.signals)
+        out.append({"bo": b["bo"], "sigs": [{"sg": sg, "comment": (s.comment or None)} for sg, s in zip(b["sigs"], sigs)],
+                    "more": list(f.transmitters[1:]) if f is not None else [], "comment": (f.comment or None) if f is not None else None})
+    return out
+
+
+def observe_core(c, r):
+    """the lines of those kinds in the real file, in the file's order"""
+    enc = c["m"]["enc"]
+    cenc = c["m"].get("cenc", enc)
+    text = r["b1"].decode(enc, "replace")
+    if cenc != enc and any(ord(ch) > 127 for ch in text):
+        return {"skipped": "comment encoding differs from the file encoding"}
+    lines = r["lines"]
+    out = list(section_lines(r))
+    out += [l for l in lines if l.startswith("BO_TX_BU_ ")]
+    for kind in ("CM_ BO_ ", "CM_ SG_ "):
+        k = 0
+        while k < len(lines):
+            if lines[k].startswith(kind):
+                out.append(lines[k])
+                while not re.search(r'" *;\s*$', lines[k]) and k + 1 < len(lines):
+                    k += 1
+                    out.append(lines[k])
+            k += 1
+    return {"core": out}
+
+
 def section_lines(r):
     if r["first"] is None:
         return []
@@ -395,6 +430,8 @@ def observe(case):
     sec = section_lines(r)
     if op == "whole":
         return observe_whole(c, r)
+    if op == "core":
+        return observe_core(c, r)
     if op == "file":
         upto = r["lines"][:r["end"]]
         return {"section": sec, "lines": upto, "read": real_blocks(upto, enc)}
@@ -570,6 +607,8 @@ def project(impl):
         return {}
     if "snap" in impl:
         return {"snap": impl["snap"]}
+    if "core" in impl:
+        return {"core": impl["core"]}
     if "section" in impl:
         return {"section": impl["section"], "read": impl["read"]}
     if "lines" in impl:
@@ -636,6 +675,12 @@ def features(case, impl):
             yield "global-attributes"
         if impl.get("exc"):
             yield "exception"
+    elif case["op"] == "core":
+        yield "core:frames=%d" % min(len(c["frames"]), 5)
+        if any(f["more"] for f in c["frames"]):
+            yield "core:several-senders"
+        if any(f["comment"] and "\n" in f["comment"] for f in c["frames"]) or any(s["comment"] and "\n" in s["comment"] for f in c["frames"] for s in f["sigs"]):
+            yield "core:comment-over-several-lines"
     elif case["op"] == "whole":
         yield "whole:variant=%d" % c["variant"]
         if "skipped" in impl:
